@@ -106,6 +106,10 @@ var dirCounter int
 
 // key materialises the input files under a fresh package directory and calls
 // the real hashing API.
+// keyTwice hashes the same model.Target value twice (the hasher sorts slices in
+// place, so the second call sees a different declaration order).
+var lastTargetRepeat string
+
 func key(s state, algo string) (string, error) {
 	root := roots[s.Root]
 	config.Global.WorkspaceRoot = root
@@ -143,7 +147,15 @@ func key(s state, algo string) (string, error) {
 		t.BinOutput = parseOut(s.BinOutput)
 	}
 	deps := append([]string{}, s.DepHashes...)
-	return hashing.GetTargetChangeHash(t, deps)
+	k, err := hashing.GetTargetChangeHash(t, deps)
+	if err == nil {
+		// the same target object hashed again must give the same key
+		k2, err2 := hashing.GetTargetChangeHash(t, append([]string{}, s.DepHashes...))
+		if err2 == nil && k2 != k {
+			lastTargetRepeat = fmt.Sprintf("%s then %s", k, k2)
+		}
+	}
+	return k, err
 }
 
 func base() state {
@@ -374,7 +386,8 @@ func families(n int) []family {
 	// order permutations (must be equal) combined with a one-element change (must differ)
 	{
 		f := family{name: "perm:inputs"}
-		files := []file{{Path: "a", Content: "1"}, {Path: "b", Content: "2"}, {Path: "c", Content: "3"}, {Path: "d/e", Content: "4"}}
+		// different sizes: a per-file size recorded in the wrong order must show
+		files := []file{{Path: "a", Content: "1"}, {Path: "b", Content: "22"}, {Path: "c", Content: "333"}, {Path: "d/e", Content: "4444"}}
 		for k := 1; k <= 4; k++ {
 			for _, p := range perms(k) {
 				s := base()
@@ -544,6 +557,10 @@ func TestVerif(t *testing.T) {
 			if err1 != nil || err2 != nil {
 				vrep.Violation("hash-error:"+fam.name, fmt.Sprintf("hashing failed: %v %v", err1, err2), s)
 				continue
+			}
+			if lastTargetRepeat != "" {
+				vrep.Violation("nondeterministic-key:same-target-hashed-twice", "hashing the same target object twice gives "+lastTargetRepeat, s)
+				lastTargetRepeat = ""
 			}
 			if k1 != k1b {
 				vrep.Violation("nondeterministic-key", fmt.Sprintf("same state hashed twice gives %s and %s", k1, k1b), s)
